@@ -10,7 +10,7 @@ from __future__ import annotations
 from fractions import Fraction
 from typing import Dict, List, Optional, Tuple
 
-from ..extreme import ELEM, NotExtreme, Summary, comprehension_extreme, is_inf, normalise_ext, summarise
+from ..extreme import ELEM, NotExtreme, Summary, comprehension_extreme, fuse_comprehensions, is_inf, normalise_ext, summarise
 from ..model import AnalysisError, Model
 from ..paths import Path, PathEnumerator
 from ..report import Report
@@ -44,7 +44,7 @@ def resolve_extremes(path: Path, value: Term) -> Tuple[Term, List[Summary], List
             s.inv = inv
             mapping[("after", name, lp.node.lineno)] = s.norm
             used.append(s)
-    v = subst(value, mapping)
+    v = fuse_comprehensions(subst(value, mapping))
     # comprehension idioms (innermost first: a comprehension may use an extreme computed before it)
     for _ in range(8):
         cands = [t for t in subterms(v, lambda x: x[0] == "call" and x[1] in ("min", "max"))
